@@ -316,3 +316,49 @@ func CtxSendStream(c *fiber.Ctx, stream io.Reader, size ...int) error {
 	W.Stream, W.StreamSet = stream, true
 	return nil
 }
+
+// ---- route registration: (*fiber.App).Get/Put/... are redirected here so that the real router code can be executed and
+// the handler chain it installs per route inspected.
+
+type Route struct {
+	Method   string
+	Path     string
+	Handlers []fiber.Handler
+}
+
+var Routes []Route
+
+func appAdd(app *fiber.App, method, path string, handlers []fiber.Handler) fiber.Router {
+	Routes = append(Routes, Route{Method: method, Path: path, Handlers: handlers})
+	return app
+}
+func AppGet(app *fiber.App, path string, handlers ...fiber.Handler) fiber.Router {
+	return appAdd(app, "GET", path, handlers)
+}
+func AppHead(app *fiber.App, path string, handlers ...fiber.Handler) fiber.Router {
+	return appAdd(app, "HEAD", path, handlers)
+}
+func AppPost(app *fiber.App, path string, handlers ...fiber.Handler) fiber.Router {
+	return appAdd(app, "POST", path, handlers)
+}
+func AppPut(app *fiber.App, path string, handlers ...fiber.Handler) fiber.Router {
+	return appAdd(app, "PUT", path, handlers)
+}
+func AppDelete(app *fiber.App, path string, handlers ...fiber.Handler) fiber.Router {
+	return appAdd(app, "DELETE", path, handlers)
+}
+func AppPatch(app *fiber.App, path string, handlers ...fiber.Handler) fiber.Router {
+	return appAdd(app, "PATCH", path, handlers)
+}
+
+// RunChain calls the handlers of a route the way fiber does: the next one runs only if the previous called Next().
+func RunChain(ctx *fiber.Ctx, handlers []fiber.Handler) error {
+	for i, h := range handlers {
+		before := W.NextCalls
+		err := h(ctx)
+		if err != nil || (i < len(handlers)-1 && W.NextCalls == before) {
+			return err
+		}
+	}
+	return nil
+}
